@@ -19,6 +19,15 @@ theorem c15_h264 (avc : Bool) (st : Bytes) (frame : List Bytes)
     (run avc st frame).1 = (run avc [] frame).1 :=
   run_selfStarting avc frame false st [] h (by simp)
 
+/-- every loss pattern, spelled out: whatever sub-sequence `got` of an earlier frame's packets was
+    delivered (and whatever garbage `junk` came before it), the next frame decodes as on a fresh
+    receiver.  (`got` need not even be a sub-sequence — the receiver state is arbitrary — but this is
+    the form the property is worded in.) -/
+theorem c15_h264_any_loss (avc : Bool) (junk earlier got frame : List Bytes)
+    (_hsub : got.Sublist earlier) (h : selfStarting false frame = true) :
+    (run avc (run avc [] (junk ++ got)).2 frame).1 = (run avc [] frame).1 :=
+  c15_h264 avc _ frame h
+
 /-- frames of the independent RFC 6184 encoder: every legal plan, after any history -/
 theorem c15_h264_encoded (avc : Bool) (st : Bytes) (plan : List Item) (hw : plan.all Item.wf = true) :
     (run avc st (encode plan)).1 = (run avc [] (encode plan)).1 :=
